@@ -8,7 +8,9 @@ constrains what may be retained and served:
 * every lookup of ``k`` makes ``k`` most-recently-used if it is present;
 * a successful storage read (re)inserts ``k`` at the MRU end, evicting the LRU
   entry when ``k`` is new and the map is full;
-* a lookup served *without* a storage read must find ``k`` in the map.
+* a lookup served *without* a storage read must find ``k`` in the map;
+* after a reload that FAILED the stale entry may be kept or dropped: the engine
+  follows both successor states (a small set of possible cache states).
 """
 
 from __future__ import annotations
@@ -49,6 +51,13 @@ class LruModel:
             self.last_victim = victim
         self.od[key] = entry
         return victim
+
+    def copy(self) -> "LruModel":
+        c = LruModel(self.capacity)
+        c.od = OrderedDict(self.od)
+        c.evictions = self.evictions
+        c.last_victim = self.last_victim
+        return c
 
     def reset(self, items=()) -> None:
         self.od.clear()
